@@ -254,15 +254,43 @@ pub fn erl_eq(a: &Value, b: &Value) -> bool {
     erl_cmp(a, b) == Cmp::Equal
 }
 
-/// Does the value contain, anywhere in a map, two keys that are `==` in Erlang but not
-/// identical (e.g. 1 and 1.0)?  Such maps are not representable in the library (known finding).
+/// Equality under an order that compares numbers by value *everywhere*, also where Erlang compares exactly (between the
+/// keys of two maps): `#{0 => a}` and `#{0.0 => a}` are different maps in Erlang (and unequal under `==`), but equal here.
+/// This is the equality of the library's term order, under which its maps are keyed (known finding C03-F1).
+pub fn loose_eq(a: &Value, b: &Value) -> bool {
+    match (a, b) {
+        (Value::Map(x), Value::Map(y)) => x.len() == y.len() && x.iter().all(|(k, v)| y.iter().any(|(k2, v2)| loose_eq(k, k2) && loose_eq(v, v2))),
+        (Value::Tuple(x), Value::Tuple(y)) => x.len() == y.len() && x.iter().zip(y).all(|(p, q)| loose_eq(p, q)),
+        (Value::List { elems: x, tail: tx }, Value::List { elems: y, tail: ty }) => {
+            x.len() == y.len()
+                && x.iter().zip(y).all(|(p, q)| loose_eq(p, q))
+                && match (tx, ty) {
+                    (None, None) => true,
+                    (Some(p), Some(q)) => loose_eq(p, q),
+                    _ => false,
+                }
+        }
+        (Value::Fun { free: fx, .. }, Value::Fun { free: fy, .. }) => {
+            // same fun apart from loosely equal free variables
+            let strip = |v: &Value| match v {
+                Value::Fun { arity, uniq, index, module, old_index, old_uniq, pid, .. } => (*arity, *uniq, *index, module.clone(), *old_index, *old_uniq, pid.clone()),
+                _ => unreachable!(),
+            };
+            strip(a) == strip(b) && fx.len() == fy.len() && fx.iter().zip(fy).all(|(p, q)| loose_eq(p, q))
+        }
+        _ => erl_cmp(a, b) == Cmp::Equal,
+    }
+}
+
+/// Does the value contain, anywhere in a map, two keys that the library's order calls equal although they are not
+/// identical (1 and 1.0; `#{0 => a}` and `#{0.0 => a}`)?  Such maps are not representable in the library (known finding).
 pub fn has_numerically_equal_keys(v: &Value) -> bool {
     let mut found = false;
     v.walk(&mut |x| {
         if let Value::Map(m) = x {
             for i in 0..m.len() {
                 for j in (i + 1)..m.len() {
-                    if erl_cmp(&m[i].0, &m[j].0) == Cmp::Equal {
+                    if loose_eq(&m[i].0, &m[j].0) {
                         found = true;
                     }
                 }
